@@ -840,7 +840,7 @@ class Filterbank(ABC):
             msg = f"Number of channels must be divisible by sub-band size. Got {nchans}"
             raise ValueError(msg)
 
-        nsub = (self.header.nchans - chanstart) // chanpersub
+        nsub = nchans // chanpersub
         fstart = self.header.fch1 + chanstart * self.header.foff
 
         if outfile_base is None:
